@@ -12,30 +12,38 @@ from ..core import Violation, Discard, sha
 
 ID = "C06"
 LEVEL = "exploration"
-RULE = ("Hypothesis-generated schedule programs: 2-8 threads, each a list of {create (C API / C++ new), load (file/string; phreeqc.dat, "
-        "pitzer.dat, wateq4f.dat), set switches (string + file switches), run (RunString/RunFile/Accumulate+RunAccumulated; workload pool: "
-        "speciation+equilibrium+dump, kinetics RK and CVODE, 5-cell transport with exchange, inverse model (ex16), BASIC-heavy USER_PUNCH/"
-        "USER_PRINT, error-producing input; 16 parameter values each), read all channels, destroy} on its own instances, with 1-4 barrier "
-        "points that start create/destroy/run/load operations of different threads simultaneously (all-create at thread start, "
-        "create-vs-destroy, run-vs-destroy, run-vs-create, load-vs-run). Each schedule is executed by the TSan build (1 sequential + 3 "
-        "concurrent processes) and by the release build (1 sequential, 1 reverse-order sequential, one solo process per thread, 3 "
-        "concurrent processes x 10 iterations). Non-trivial = a ThreadSanitizer-instrumented concurrent execution of the schedule had >=2 "
-        "threads inside library calls at the same time and >=1 create/destroy overlapping a run (measured by relaxed atomic counters in "
-        "the harness); distinct by SHA-256 of the case")
-ASSUMPTIONS = ["ThreadSanitizer (clang) reports every happens-before violation on the paths a schedule executes, and only those; paths and "
-               "interleavings not executed by a sampled schedule are not covered (schedules are sampled, not enumerated)",
-               "the harness adds no synchronisation between threads other than the schedule's barriers (overlap counters are relaxed atomics)",
+RULE = ("Hypothesis-generated schedule programs: 2-8 threads, each a list of {create (C API / C++ new), load (file/string; corpus/mt/small.dat, "
+        "phreeqc.dat, pitzer.dat), set switches (string + file switches), run (RunString/RunFile/AccumulateLine+RunAccumulated; workload pool: "
+        "speciation+equilibrium phases+dump, kinetics Runge-Kutta and CVODE, 3-cell advective transport with exchange, 3-cell multicomponent-"
+        "diffusion transport, inverse model, BASIC-heavy USER_PUNCH/USER_PRINT, error-producing input; 16 parameter values each; workloads "
+        "use disjoint reactant numbers so any sequence on one instance stays cheap), read all channels (selected-output tables bitwise, output/"
+        "log/dump/error/warning strings, line counts, components, default-named files), destroy} on its own instances, with 1-3 barrier points "
+        "that start operations of different threads simultaneously (run-vs-destroy, run-vs-create, create-vs-destroy, load-vs-run, all-create, "
+        "all-run, mixed); in 1 of 4 schedules an extra thread replays another thread's program without barriers (twin histories). Each "
+        "schedule is executed by the ThreadSanitizer build (1 sequential + 3 concurrent processes) and by the release build (1 sequential, "
+        "2x reverse-order sequential, one solo process per thread, 3 concurrent processes x 10 iterations). Excluded by construction and "
+        "counted (known findings): TRANSPORT runs in more than one thread of a schedule; LoadDatabase on an instance that has integrated "
+        "KINETICS. Non-trivial = a ThreadSanitizer-instrumented concurrent execution of the schedule had >=2 threads inside library calls at "
+        "the same time AND >=1 create/destroy overlapping a run (relaxed atomic counters in the harness); distinct by SHA-256 of the case")
+ASSUMPTIONS = ["ThreadSanitizer (clang 14, -O1) reports every happens-before violation on the paths a schedule executes, and only those; paths "
+               "and interleavings not executed by a sampled schedule are not covered (schedules are sampled, not enumerated)",
+               "the harness adds no synchronisation between threads other than the schedule's barriers (overlap counters are relaxed atomics, "
+               "results are collected per thread and merged after join)",
                "removing the qsort lock of thread.h is behaviourally unobservable with glibc (its qsort keeps no shared state); no dynamic "
                "check can flag it and none is claimed",
                "bitwise comparison is made within one build only (tsan vs tsan, rel vs rel), after masking the 'End of Run after X Seconds.' "
-               "banner with its dashed lines and the instance id inside default file names",
-               "a TSan report or a hang must be seen in >=2 (report) / 3 (hang, 300 s each) executions of the same schedule to count"]
+               "banner with its dashed lines and the instance id inside default file names; long strings are compared by length + 128-bit hash",
+               "a ThreadSanitizer report counts when it involves a frame below <repo>/src and is seen in >=2 executions of the same schedule (a "
+               "single unreproduced report is recorded in the evidence notes); a report with harness-only stacks aborts the run as a harness error",
+               "time never decides a verdict: an execution still consuming CPU after 300 s discards the case (counted); a deadlock needs 3 of 3 "
+               "executions in which every thread sleeps in futex(2) with unchanged CPU time and context-switch counts over 7 samples 5 s apart"]
 TECHNIQUE = ("property-based testing (Hypothesis) of thread schedules: ThreadSanitizer race detection + differential concurrent vs "
-             "sequential vs reverse vs solo execution of the same per-thread programs, bitwise on all channels")
-LEVEL_TEXT = ("Exploration: each run executes tens (quick) to about a thousand (thorough) generated multi-thread schedules under ThreadSanitizer "
+             "sequential vs reverse vs solo vs repeated execution of the same per-thread programs, bitwise on all channels; id uniqueness")
+LEVEL_TEXT = ("Exploration: each run executes 64 (quick) to about 1200 (thorough) generated multi-thread schedules under ThreadSanitizer "
               "and, with 10x the volume, in the release build; every instance's observations (tables bitwise, all strings and files) must be "
-              "the same whether its thread ran alone, sequentially, or concurrently with up to 7 others, and ids must be unique. Limits: "
-              "schedules and interleavings are sampled; TSan sees only executed paths; the qsort lock cannot be observed on glibc.")
+              "the same whether its thread ran alone, sequentially, or concurrently with up to 7 others, in every repetition, and ids must be "
+              "unique and never reused. Limits: schedules and interleavings are sampled; TSan sees only executed paths; the qsort lock cannot "
+              "be observed on glibc; concurrent TRANSPORT runs and reload-after-kinetics are excluded (known findings).")
 FLOORS = {"quick": 40, "thorough": 600}
 _NSH = os.environ.get("VERIF_C06_SHARDS")       # development only: fewer worker processes on a shared machine (same total budget)
 SHARDS = {"quick": int(_NSH) if _NSH else 8, "thorough": int(_NSH) if _NSH else 16}
@@ -48,6 +56,7 @@ SUPP = os.path.join(os.path.dirname(os.path.abspath(__file__)), "..", "c06_tsan.
 TSAN_CONC = 3          # concurrent executions under ThreadSanitizer per schedule
 REL_CONC = 3           # concurrent release-build processes per schedule ...
 REL_ITERS = 10         # ... each repeating the schedule this many times
+MAX_FREE_RUNS = 3      # runs per thread beyond which only barrier-role runs are added (keeps a schedule at a few seconds)
 SHRINK_EVALS = 12      # schedule evaluations allowed after the first violation in a shard (shrinking)
 HEAVY = ["transport", "transport_md", "kin_cvode", "kin_rk", "inverse"]
 
@@ -69,6 +78,8 @@ class _T:
         self.ops, self.live, self.nslot = [], {}, 0
         self.transport_ok = transport_ok     # known finding C06-transport-globals: TRANSPORT runs are confined to one thread
         self.excluded = 0
+        self.kin = set()                     # slots whose instance has run a KINETICS workload (known finding C06-rates-map)
+        self.excluded_reload = 0
 
 
 def _mask(draw):
@@ -90,6 +101,11 @@ def _create(draw, t):
 
 
 def _load(draw, t, s):
+    if s in t.kin:
+        # known finding C06-rates-map: LoadDatabase on an instance that has integrated KINETICS leaves dangling keys in
+        # Phreeqc::rates_map; excluded by construction (the instance keeps its database), counted
+        t.excluded_reload += 1
+        return
     db = draw(st.sampled_from(wl.DB_WEIGHTED))
     t.ops.append({"op": "load", "s": s, "db": db, "via": draw(st.sampled_from(["file", "file", "string"]))})
     t.live[s] = db
@@ -105,7 +121,10 @@ def _run(draw, t, s, heavy=False):
     if not t.transport_ok:
         names = [n for n in names if n not in wl.TRANSPORT_WL]
         t.excluded += 1      # a draw from which the transport workloads were struck (exclusion by construction, counted)
-    t.ops.append({"op": "run", "s": s, "wl": draw(st.sampled_from(names)), "p": draw(st.integers(0, wl.NPARAM - 1)),
+    w = draw(st.sampled_from(names))
+    if w in wl.KINETICS_WL:
+        t.kin.add(s)
+    t.ops.append({"op": "run", "s": s, "wl": w, "p": draw(st.integers(0, wl.NPARAM - 1)),
                   "via": draw(st.sampled_from(["string", "string", "file", "accum"]))})
 
 
@@ -116,6 +135,7 @@ def _read(t, s):
 def _destroy(t, s):
     t.ops.append({"op": "destroy", "s": s})
     del t.live[s]
+    t.kin.discard(s)
 
 
 def _pick_live(draw, t):
@@ -134,8 +154,14 @@ def _pick_loaded(draw, t):
     return k
 
 
+def _nruns(t):
+    return sum(1 for o in t.ops if o["op"] == "run")
+
+
 def _free(draw, t):
     a = draw(st.sampled_from(["run", "run", "new", "destroy", "reload", "set"]))
+    if a == "run" and _nruns(t) >= MAX_FREE_RUNS:
+        a = "set"
     if a == "run":
         s = _pick_loaded(draw, t)
         _run(draw, t, s)
@@ -162,7 +188,7 @@ def case_strategy(draw):
     n = draw(st.sampled_from([2, 2, 3, 3, 3, 4, 4, 5, 6, 8]))
     tt = draw(st.integers(0, n - 1))      # the only thread whose program may contain TRANSPORT runs
     T = [_T(i == tt) for i in range(n)]
-    nbar = draw(st.integers(1, 4))
+    nbar = draw(st.integers(1, 3))
     counts, patterns = [], []
     for b in range(nbar):
         pat = draw(st.sampled_from(["run_destroy", "run_create"] if b == 0 else sorted(PATTERNS)))
@@ -214,7 +240,7 @@ def case_strategy(draw):
             _run(draw, t, s)
             _read(t, s)
         for s in sorted(t.live):
-            if t.live[s] and draw(st.booleans()):
+            if t.live[s] and _nruns(t) < MAX_FREE_RUNS and draw(st.booleans()):
                 _run(draw, t, s)
                 _read(t, s)
             _destroy(t, s)
@@ -227,7 +253,7 @@ def case_strategy(draw):
         src = draw(st.sampled_from(cand))
         threads.append([dict(o) for o in threads[src] if o["op"] != "bar"])
     return {"kind": "sched", "threads": threads, "barriers": counts, "patterns": patterns + (["twin_thread"] if twin else []),
-            "excluded_transport_draws": sum(t.excluded for t in T)}
+            "excluded_transport_draws": sum(t.excluded for t in T), "excluded_reloads": sum(t.excluded_reload for t in T)}
 
 
 # ------------------------------------------------------------------------------- schedule rendering
@@ -612,6 +638,8 @@ def _check(case, ctx):
         classes = ["threads=%d" % n] + ["barrier:" + p for p in sorted(set(case.get("patterns", [])))]
         if case.get("excluded_transport_draws"):
             ctx.event("excluded_by_construction:transport_in_second_thread(draws)", case["excluded_transport_draws"])
+        if case.get("excluded_reloads"):
+            ctx.event("excluded_by_construction:reload_after_kinetics(ops)", case["excluded_reloads"])
         # ---- (a) ThreadSanitizer build: sequential reference, then concurrent executions
         tseq = execute(ctx, "tsan", sched, sd, "tseq", ["--mode", "seq"])
         check_crash(tseq, "mt_tsan sequential")
